@@ -29,6 +29,13 @@ Findings repaired in the repository (`fix:` commits, see KNOWN_FINDINGS.txt):
   longer phrases (`sort_by` panicked on such a leaf of more than 20 phrases): now single characters
   sort before longer phrases (`comparator_total_preorder`).
 * `trie.asn1` constrained `freq` to 0..65535 although a `u32` is encoded (`format_constants`).
+
+Since the repair of C13's finding F47 (`Syllable::try_from` accepts only values that are syllables) the reader
+treats a stored syllable field that is not such a value differently: `Trie::new` rejects the file
+(`validate_index`, `TrieValidate.sylsOk`), `entries()` would panic on it (`try_from(..).unwrap()`) and the fuzzy
+predicate is false for it.  None of this can happen on a written file: the keys given to `insert` are
+`&[Syllable]`, i.e. valid codes (`ValidEntry`), and the syllable field of a node record is the syllable of the
+builder node (`validate_write`, `writeLoop_syls`); all theorems keep their conclusions.
 -/
 namespace Chewing.C11
 open Chewing Chewing.Der Chewing.TrieCodec
@@ -36,10 +43,15 @@ open Chewing Chewing.Der Chewing.TrieCodec
 /-! ## the statement -/
 
 /-- inputs as the Rust types constrain them: `String`s hold Unicode scalar values, a `Syllable` is a
-    non-zero `u16`, `freq : u32`, `last_used : Option<u64>` -/
+    non-zero `u16` that `Syllable::try_from` accepts (`validCode`, in `ValidEntry`: since the repair of C13's
+    finding F47 the invariant of the type `Syllable` — `try_from`, the builder, `update`, `remove_*` yield nothing
+    else —, so a `&[Syllable]` key handed to `TrieBuilder::insert` consists of such codes by construction; before
+    the repair every non-zero `u16` was a `Syllable`), `freq : u32`, `last_used : Option<u64>` -/
 def ValidInput (info : Info) (es : List Entry) : Prop := ValidInfo info ∧ ∀ e ∈ es, ValidEntry e
 
-/-- a query: non-zero syllable codes -/
+/-- a query: non-zero syllable codes.  (A query is a `&[Syllable]` too, hence consists of valid codes; the
+    theorems need no more than `≠ 0` of it — the exact predicate compares codes, the fuzzy predicate applies
+    `try_from` to the STORED syllable only — and are stated for every such key.) -/
 def ValidKey (k : List Nat) : Prop := ∀ s ∈ k, s ≠ 0
 
 /-- the phrases inserted for a key: insertion order, a re-inserted phrase replacing the earlier one
@@ -173,8 +185,11 @@ theorem writes_within_limits (b : TrieCodec.Builder) (hf : b.Fits) : b.write.isS
     findings F16 / F17 (`validate_index`: child ranges after their node and in ascending order, inside the index, no
     leaf record but at the first position of a child range, leaf data inside the phrase bytes) accepts the index of
     EVERY file `TrieBuilder::write` produces — the scan runs along the order in which the BFS emits the records and
-    its `next` is the writer's `child_begin` (`writeLoop_scan`).  So `openTrie` (which ends with that check) still
-    opens every written file: `read_write` and `C11` keep their statements. -/
+    its `next` is the writer's `child_begin` (`writeLoop_scan`).  The check added with the repair of C13's F47 — the
+    syllable field of every node record other than the root is a value `Syllable::try_from` accepts — holds because
+    that field is the syllable of a builder node, a `Syllable` handed to `insert` (`writeLoop_syls`, `Forest.WF`).
+    So `openTrie` (which ends with that check) still opens every written file: `read_write` and `C11` keep their
+    statements. -/
 theorem validate_write (b : TrieCodec.Builder) (hb : b.WF) (recs : List Rec) (data : Bytes)
     (h : b.buffers = some (recs, data)) (hr : recs.length < 4294967296) (hd : data.length < 4294967296) :
     TrieValidate.validate recs data.length = true ∧ validIndex (recs.flatMap recBytes) data = true :=
@@ -556,6 +571,21 @@ example : (sampleTwoLeaves.map fun t => (collectN t.index t.data 3
 -- 1 -> 0: the root becomes its own child, C12's finding F16) decodes as DER but is rejected by `openTrie`
 example : ((TrieCodec.Builder.ofEntries {} sampleEntries).write.map fun bytes =>
     (bytes[28]?, openTrie (bytes.set 28 0), (openTrie bytes).isSome)) = some (some 1, none, true) := by decide
+
+-- nor is its syllable clause (since the repair of C13's F47): the low byte of the syllable field of record 1
+-- (ㄘㄜˋ = 0x281c) overwritten with 0x1e gives tone index 6, a value `Syllable::try_from` rejects — the file is refused;
+-- a `Trie` holding that index (which `openTrie` never returns) makes `entries()` panic and a fuzzy lookup miss the node
+example : ((TrieCodec.Builder.ofEntries {} sampleEntries).write.map fun bytes =>
+    (bytes[40]?, validCode 0x281c, validCode 0x281e, openTrie (bytes.set 40 0x1e))) = some (some 0x1c, true, false, none) := by
+  decide
+example : (sampleTrie.map fun t => (t.index[15]?, (entries { t with index := t.index.set 15 0x1e }).map (·.length),
+    lookupAll { t with index := t.index.set 15 0x1e } [10240] .fuzzyPartialPrefix, (lookupAll t [10240] .fuzzyPartialPrefix).length)) =
+    some (some 0x1c, .panic "syllable-invalid", [], 2) := by decide
+
+-- the input hypothesis excludes exactly such keys: a `u16` that is not a `Syllable` is not a valid entry
+example : ¬ ValidEntry ([0x6a07], { text := [28204], freq := 1 }) := by
+  intro h
+  exact absurd (h.1 0x6a07 (by simp)).2.2 (by decide)
 
 -- enumeration: three (key, phrase) pairs (the iterator pops each round's results: deepest first)
 example : (sampleTrie.map fun t => (entries t).map fun es => es.map (·.1)) =
